@@ -335,7 +335,21 @@ def rule_r4_r5(chk, p, t):
                             defs.setdefault(n.targets[0].id, []).append(n.value)
                     d = defs.get(prop, [])
                     mods = [n for n in walk_no_nested(fn.node) if isinstance(n, ast.Assign) and isinstance(n.targets[0], ast.Attribute) and unparse(n.targets[0].value) == prop]
-                    is_copy = len(d) == 1 and isinstance(d[0], ast.Call) and call_name(d[0]) == "deepcopy"
+                    # a deep copy always isolates; a shallow copy isolates when only top-level fields are rebound
+                    shallow_mods = all(isinstance(n.targets[0].value, ast.Name) for n in mods)
+
+                    def copies(e):
+                        if not isinstance(e, ast.Call):
+                            return False
+                        cn = call_name(e)
+                        if cn == "deepcopy":
+                            return True
+                        deep_kw = any(k.arg == "deep" and isinstance(k.value, ast.Constant) and k.value.value is True for k in e.keywords)
+                        if cn in ("model_copy", "copy") and (deep_kw or shallow_mods):
+                            return True
+                        return False
+
+                    is_copy = len(d) == 1 and copies(d[0])
                     if mods and not is_copy:
                         r5.violation(cons, f"estimate-config-aliased:{prop}", f"`{unparse(mods[0])}` modifies the propagation settings that truth dynamics are built from (no deepcopy): the estimation model leaks into the truth of agents added later", fn.loc(mods[0]))
                     else:
